@@ -39,6 +39,9 @@ func (m *Mutex) Unlock() {
 		panic("verifrt: unlock of unlocked mutex")
 	}
 	m.locked = false
+	if S != nil && S.unlockPoints {
+		Point("Mutex.Unlock")
+	}
 }
 
 type RWMutex struct {
